@@ -369,6 +369,7 @@ class FnSpec:
         self.insert_after, self.insert_before = [], []
         self.is_slice = False
         self.from_anchor = self.to_anchor = self.must_precede = None
+        self.must_contain = []
         self.prologue, self.epilogue = [], []
         self.loop_starts = {}
         self.loop_ends = {}
@@ -501,6 +502,8 @@ def parse_template(path):
                         fs.from_anchor = d[5:].strip().strip('"'); target = None
                     elif d.startswith("to "):
                         fs.to_anchor = d[3:].strip().strip('"'); target = None
+                    elif d.startswith("must-contain "):
+                        fs.must_contain.append(d[len("must-contain "):].strip().strip('"')); target = None
                     elif d.startswith("must-precede "):
                         fs.must_precede = d[len("must-precede "):].strip().strip('"'); target = None
                     elif d == "prologue":
@@ -775,6 +778,12 @@ def build_slice(fs, canary=False):
         raise OrderViolation(fs.id, fs.safety, "%r occurs before the end of the slice %r .. %r" % (fs.must_precede, fs.from_anchor, fs.to_anchor))
     if fs.must_precede and _norm(fs.must_precede) not in _norm(body[b:]):
         raise ExtractError("lost anchor: slice %s: %r no longer follows the slice" % (fs.id, fs.must_precede))
+    for mc in getattr(fs, "must_contain", []):
+        if _norm(mc) not in _norm(text):
+            if _norm(mc) in _norm(body[b:]):
+                # same decided, syntactic obligation: a fallible construction now comes AFTER the last statement of the slice
+                raise OrderViolation(fs.id, fs.safety, "%r occurs after the end of the slice %r .. %r" % (mc, fs.from_anchor, fs.to_anchor))
+            raise ExtractError("lost anchor: slice %s: %r is no longer part of the slice" % (fs.id, mc))
     applied = [("slice", "%s .. %s" % (fs.from_anchor, fs.to_anchor), "statements wrapped in a synthetic signature and tail (template text)")]
     out = []
     pro = list(fs.prologue)
